@@ -148,10 +148,11 @@ class Gen:
         return out
     def doc(self, nparas=None):
         stories = []
-        if self.profile == 'full' and self.r.random() < .25:
+        if (self.profile == 'full' and self.r.random() < .25) or (self.profile == 'c12' and self.r.random() < .15):
             x = self.r.random()
             if x < .7: stories.append({'kind': 0, 'blocks': self.blocks(self.r.randint(0, 2))}); self.features.add('header')
-            if x > .5: stories.append({'kind': 0, 'hf': 'first', 'blocks': self.blocks(self.r.randint(1, 2))}); self.features.add('first_header')
+            # (a defined but empty first-page header after a running header with text: an empty story BETWEEN two non-empty ones)
+            if x > .5: stories.append({'kind': 0, 'hf': 'first', 'blocks': self.blocks(self.r.choice([0, 1, 1, 2]))}); self.features.add('first_header')
         stories.append({'kind': 1, 'blocks': self.blocks(nparas or self.r.randint(1, 5))})
         if self.profile == 'full' and self.r.random() < .12:       # a second section: the break sits in the pPr of the paragraph that ends the first one
             cands = [b for b in stories[-1]['blocks'][:-1] if b['t'] == 'p']
